@@ -114,9 +114,9 @@ REQUESTS = {
     'assist-nested-level2-star': ('assist', (28, 6)),
     'assist-global-declared-import': ('assist', (30, 8)),
 }
-EDITS = ['w:d_extra', 'w:d_new', 'w:b_extra', 'w:c_extra', 'w:c_broken', 'w:h_extra', 'w:k_full', 'w:x_extra', 'w:y_extra', 'touch:d', 'touch:b', 'touch:c', 'create:e', 'create:f', 'create:pkg', 'delete:k']
+EDITS = ['w:d_extra', 'w:d_new', 'w:b_extra', 'w:c_extra', 'w:c_broken', 'w:h_extra', 'w:k_full', 'w:x_extra', 'w:y_extra', 'touch:d', 'touch:b', 'touch:c', 'create:e', 'create:f', 'create:pkg', 'delete:k', 'delete:pkg']
 ALPHABET = EDITS + sorted(REQUESTS)
-QUICK_EDITS = ['w:d_extra', 'w:d_new', 'w:b_extra', 'w:y_extra', 'w:c_broken', 'w:h_extra', 'w:k_full', 'touch:d', 'touch:b', 'create:e', 'create:f', 'create:pkg', 'delete:k']
+QUICK_EDITS = ['w:d_extra', 'w:d_new', 'w:b_extra', 'w:y_extra', 'w:c_broken', 'w:h_extra', 'w:k_full', 'touch:d', 'touch:b', 'create:e', 'create:f', 'create:pkg', 'delete:k', 'delete:pkg']
 QUICK_REQUESTS = ['assist-instance-attr', 'assist-star-class-attr', 'assist-names', 'assist-created-module', 'location-inherited-attr',
                   'assist-created-package', 'assist-late-star-names', 'assist-through-cycle', 'assist-package-from-import', 'assist-relative-reexport', 'assist-deep-star-names', 'assist-deep-inherited-attr', 'assist-empty-module-star-names', 'assist-nested-level1', 'assist-nested-level2', 'assist-global-declared-import']
 
@@ -174,7 +174,14 @@ class World(object):
         if op.startswith('delete:'):
             # a module file removed (renamed, moved) between two requests; w:k_full writes it again
             path = os.path.join(self.root, op[7:] + '.py')
-            if os.path.exists(path):
+            if op == 'delete:pkg':
+                # a whole package directory removed (renamed away); create:pkg brings it back
+                if self.state['pkg']:
+                    self.state['pkg'] = False
+                    shutil.rmtree(os.path.join(self.root, 'pkg'), ignore_errors=True)
+                    if self.loaded_once:
+                        self.edit_after_load = True
+            elif os.path.exists(path):
                 os.remove(path)
                 self.written.pop(op[7:], None)
                 if self.loaded_once:
@@ -321,7 +328,13 @@ def run(run):
                 for e2 in QUICK_EDITS:
                     for r2 in QUICK_REQUESTS:
                         hs.append((r1, e1, e2, r2))
-        scope = 'length <= 3 over %d symbols + all  request;edit;edit;request  histories' % len(alpha)
+        # something created, used, deleted again, used again
+        for e1 in ('create:e', 'create:f', 'create:pkg', 'w:k_full'):
+            for r1 in QUICK_REQUESTS:
+                for e2 in ('delete:k', 'delete:pkg'):
+                    for r2 in QUICK_REQUESTS:
+                        hs.append((e1, r1, e2, r2))
+        scope = 'length <= 3 over %d symbols + all  request;edit;edit;request  and  create;request;delete;request  histories' % len(alpha)
     else:
         for L in (2, 3, 4):
             for ops in itertools.product(ALPHABET, repeat=L):
